@@ -452,3 +452,11 @@ def c04_7(ctx):
                 ctx.fail(fn, p.node, 'a [ns] value (integer epoch) is returned as `%s`, expected pd.Timestamp(%s)' % (p.text(), t))
     if not ctx.findings and seen != {'datetime', 'date', 'int'}:
         ctx.fail(fn, fn.node, 'np2dt no longer distinguishes datetime / date / integer-epoch conversions: %s' % sorted(seen))
+
+
+@obligation('C04.8', 'TABLES (shared with C09.1)', 'period regex (module _dates) as the gate between tenors and dates in dt()',
+            'dt() asks is_bump before it parses a string as a date: the tenor regex must be exactly sign? digits+ unit-letter, or date spellings that begin with digits followed by a month name ("05 Dec 2021") are taken for tenors and raise',
+            axioms=())
+def c04_8(ctx):
+    from . import C09 as _c09
+    _c09.c09_1(ctx)
